@@ -394,3 +394,87 @@ class StrSym:
 
 
 UNDEF = object()
+
+
+class SList(Opaque):
+    """mutable Python list of symbolic length (append inside loops with symbolic trip count);
+    elem(i) returns an interpreter value; ite over values is structural (see ite_value)"""
+    type_name = "list"
+
+    def __init__(self, length=0, elem=None, name="list"):
+        self.length = length
+        self.elem = elem or (lambda i: (_ for _ in ()).throw(IndexError("empty SList")))
+        self.name = name
+        self.writes = 0
+
+    def len_(self, itp):
+        return wrap(self.length)
+
+    def truth(self, itp):
+        if isinstance(self.length, int):
+            return self.length > 0
+        return itp.cx.branch(T.gt(self.length, 0), "list non-empty")
+
+    def append(self, itp, v):
+        old_len, old_elem = self.length, self.elem
+
+        def new_elem(i, old_len=old_len, old_elem=old_elem, v=v):
+            c = T.eq(i, old_len)
+            if c is True:
+                return v
+            if c is False:
+                return old_elem(i)
+            return ite_value(c, v, lambda: old_elem(i))
+        self.elem = new_elem
+        self.length = T.add(old_len, 1)
+        self.writes += 1
+
+    def call_method(self, itp, name, args, kwargs):
+        if name == "append":
+            self.append(itp, args[0])
+            return None
+        raise Unsupported(f"symbolic list method {name}")
+
+    def getitem(self, itp, sel):
+        if isinstance(sel, tuple) and sel and sel[0] == "slice":
+            raise Unsupported("slice of symbolic list")
+        i = term_of(sel)
+        cx = itp.cx
+        if isinstance(i, int) and i < 0:
+            j = T.add(self.length, i)
+            cx.require(f"safe.index#{cx.ordinal('safe.index')}", T.ge(j, 0), "safe", f"list index {i} of length {self.length}")
+            return self.elem(j)
+        cx.require(f"safe.index#{cx.ordinal('safe.index')}", T.land(T.ge(i, 0), T.lt(i, self.length)), "safe", "list index")
+        return self.elem(i)
+
+    def items_concrete(self, itp):
+        if isinstance(self.length, int):
+            return [self.elem(i) for i in range(self.length)]
+        return None
+
+    def symbolic_iter(self, itp):
+        return self.length, self.elem
+
+    def iterable(self):
+        return True
+
+    def isinstance_of(self, itp, q):
+        return False
+
+
+def ite_value(c, a, b_thunk):
+    """structural if-then-else over interpreter values (scalars, arrays of equal shape, tuples)"""
+    b = b_thunk() if callable(b_thunk) else b_thunk
+    if a is b:
+        return a
+    if is_scalar(a) and is_scalar(b):
+        return wrap(T.ite(c, term_of(a), term_of(b)))
+    if isinstance(a, SArr) and isinstance(b, SArr) and len(a.shape) == len(b.shape):
+        ga, gb = a.getter(), b.getter()
+        shape = a.shape  # shapes are required equal by the contract that builds such lists
+        return SArr.fresh(shape, lambda idx: T.ite(c, ga(idx), gb(idx)), a.dtype)
+    if isinstance(a, tuple) and isinstance(b, tuple) and len(a) == len(b):
+        return tuple(ite_value(c, x, (lambda y=y: y)) for x, y in zip(a, b))
+    if a is None and b is None:
+        return None
+    raise Unsupported(f"if-then-else over values of type {type(a).__name__}/{type(b).__name__}")
